@@ -257,8 +257,13 @@ def run(ctx: Context) -> None:
                     if v is None and name in fields and fields.index(name) < len(recs[0].args) and not any(isinstance(a, ast.Starred) for a in recs[0].args):
                         v = recs[0].args[fields.index(name)]
                     return v
+                from .common import expand_locals as _x15
+                fl15 = ctx.flow(fi)
                 li = value_of('linear_index')
                 ix = value_of('index')
+                # (a local that only renames the position or keeps the native index is spelled out)
+                li = _x15(fl15, li, keep=[it['index_var']]) if li is not None else None
+                ix = _x15(fl15, ix, keep=[it['index_var']]) if ix is not None else None
                 ok_li = isinstance(li, ast.Name) and li.id == it['index_var']
                 ixv = ix
                 if isinstance(ixv, ast.Call) and (dotted(ixv.func) or '') == 'json.dumps' and ixv.args:
